@@ -36,6 +36,7 @@ SHARED = {
     "GenDiff": ["C12"],
     "GenAlg": ["C13"],
     "GenMul": ["C06"],
+    "GenW3j": ["C05"],
     "GenMethod": ["C01", "C02", "C03", "C04", "C07", "C09", "C10", "C17"],
 }
 
